@@ -113,7 +113,7 @@ def run(ctx: Ctx) -> int:
 		groups.append(list(one.values()))
 	if quick:
 		groups = groups[::2] + [g for g in groups if not g[0]['merged']]
-	ctx.log(f'TLC: {info[0] if info else "?"} valid identifier assignments; {len(groups)} shadowing patterns x 6 adversarial namings to compare')
+	ctx.log(f'TLC: {info[0] if info else "?"} valid identifier assignments; {len(groups)} shadowing patterns x {len(groups[0]) - 1 if groups else 0} adversarial namings to compare')
 	nproc = 16
 	with ProcessPoolExecutor(max_workers=nproc) as ex:
 		results = list(ex.map(_check_groups, [groups[i::nproc] for i in range(nproc)]))
@@ -133,7 +133,7 @@ def run(ctx: Ctx) -> int:
 		'traces_validated_against_impl': compared,
 		'valid_assignments': info[0] if info else '',
 		'shadowing_patterns': len(groups),
-		'namings_per_pattern': 6,
+		'namings_per_pattern': len(groups[0]) - 1 if groups else 0,
 		'programs_compared': compared,
 		'exhaustive': True,
 		'samples': [{'merged': groups[5][0]['merged'], 'pool': groups[5][1]['pool'], 'text_head': groups[5][1]['text'][:200]}],
